@@ -213,14 +213,63 @@ impl Expand {
 /// Run `cases` proptest cases split over the context's threads. The checker returns
 /// `Err(Violation)` when the property is violated on that case. On failure proptest shrinks the
 /// case; the violation of the shrunk case is what is reported.
-pub fn run_proptest<C, MkS, Chk>(
-    ctx: &Ctx,
-    st: &mut Stats,
-    label: &str,
-    cases: u32,
-    mk_strategy: MkS,
-    check: Chk,
-) -> Vec<Violation>
+pub fn run_proptest<C, MkS, Chk>(ctx: &Ctx, st: &mut Stats, label: &str, cases: u32, mk_strategy: MkS, check: Chk) -> Vec<Violation>
+where
+    C: std::fmt::Debug + Clone + Send + 'static,
+    MkS: Fn() -> BoxedStrategy<C> + Sync,
+    Chk: Fn(&C, &mut Stats) -> Result<(), Violation> + Sync,
+{
+    // a quarter of the cases with the `log` facade silent (the default of a program without a logger), the rest
+    // with a logger installed at Trace: code inside the library's log statements runs only then
+    let quiet = cases / 4;
+    let mut v = Vec::new();
+    if quiet > 0 {
+        set_logging(false);
+        v = run_proptest_phase(ctx, st, &format!("{label}#quiet"), quiet, &mk_strategy, &check);
+        set_logging(true);
+        tag_logging(&mut v, false);
+    }
+    if v.is_empty() {
+        v = run_proptest_phase(ctx, st, label, cases - quiet, &mk_strategy, &check);
+        tag_logging(&mut v, true);
+    }
+    v
+}
+
+/// a logger that formats every record, as a real one would, and drops it
+struct SinkLogger;
+static SINK: SinkLogger = SinkLogger;
+pub static LOG_RECORDS: std::sync::atomic::AtomicU64 = std::sync::atomic::AtomicU64::new(0);
+impl log::Log for SinkLogger {
+    fn enabled(&self, _: &log::Metadata) -> bool {
+        true
+    }
+    fn log(&self, r: &log::Record) {
+        use std::fmt::Write;
+        let mut s = String::new();
+        let _ = write!(s, "{} {}", r.level(), r.args());
+        LOG_RECORDS.fetch_add(1, Ordering::Relaxed);
+    }
+    fn flush(&self) {}
+}
+/// install the logger (once per process); logging starts enabled at Trace
+pub fn install_logger() {
+    let _ = log::set_logger(&SINK);
+    set_logging(true);
+}
+pub fn set_logging(on: bool) {
+    log::set_max_level(if on { log::LevelFilter::Trace } else { log::LevelFilter::Off });
+}
+/// record in the replay case whether logging was enabled when the violation was found
+pub fn tag_logging(v: &mut [Violation], on: bool) {
+    for x in v.iter_mut() {
+        if let Some(o) = x.case.as_object_mut() {
+            o.insert("logging".into(), json!(on));
+        }
+    }
+}
+
+fn run_proptest_phase<C, MkS, Chk>(ctx: &Ctx, st: &mut Stats, label: &str, cases: u32, mk_strategy: &MkS, check: &Chk) -> Vec<Violation>
 where
     C: std::fmt::Debug + Clone + Send + 'static,
     MkS: Fn() -> BoxedStrategy<C> + Sync,
@@ -239,8 +288,6 @@ where
             }
             let results = &results;
             let stop = &stop;
-            let mk_strategy = &mk_strategy;
-            let check = &check;
             let seed = mix64(ctx.seed ^ hash_str(&ctx.id) ^ hash_str(label).rotate_left(17) ^ ((t as u64) << 48));
             scope.spawn(move || {
                 let mut local = Stats::new();
@@ -373,7 +420,27 @@ where
     }
     out.sort_by(|a, b| a.signature.cmp(&b.signature).then(a.message.cmp(&b.message)));
     out.dedup_by(|a, b| a.signature == b.signature);
+    tag_logging(&mut out, log::max_level() != log::LevelFilter::Off);
     out
+}
+
+/// Run a replay closure under the logging state recorded in the case; a case without that record (older replay
+/// files, hand-written ones) is run silent first and then with the logger at Trace.
+pub fn replay_with_logging(v: &Value, f: &dyn Fn(&Value) -> Result<(), String>) -> Result<(), String> {
+    let levels: Vec<bool> = match v.get("logging").and_then(|b| b.as_bool()) {
+        Some(b) => vec![b],
+        None => vec![false, true],
+    };
+    let mut r = Ok(());
+    for on in levels {
+        set_logging(on);
+        r = f(v);
+        if r.is_err() {
+            break;
+        }
+    }
+    set_logging(true);
+    r
 }
 
 /// Draw one value from a strategy (used to build Miri/fuzz corpora from the same generators).
